@@ -50,7 +50,9 @@ def required_cells(tier):
             "schedule:threads": 6, "orders_observed_threads": 6,
             "env:pttempo": 2, "env:ancilla": 3, "order:1": 3, "order:2": 3,
             "subset:noncontiguous": 3, "state-query-between-computes": 4,
-            "truncation:coarse": 1, "coarse-run-before": 2}
+            "truncation:coarse": 1, "coarse-run-before": 2,
+            "site-liouvillian:after-hamiltonian": 3,
+            "site-liouvillian:before-hamiltonian": 3}
 
 
 def cases(tier, seed):
@@ -178,12 +180,28 @@ def run_physics(case):
         h = float(rng.normal()) * sz if kind == "commuting" else \
             gen.rand_herm(rng, d, 0.7)
         site_h.append(h)
-        sys_chain.add_site_hamiltonian(s, h)
         if kind != "commuting" and rng.random() < 0.6:
             lop = gen.cplx(rng, (d, d), 0.5)
             g = float(rng.uniform(0.05, 0.3))
-            sys_chain.add_site_dissipation(s, lop, g)
+            # the dissipator reaches the chain as a Lindblad operator or as
+            # a ready-made single-site Liouvillian, added after or before
+            # the Hamiltonian of that site (the terms of a site add up)
+            route = (i + s) % 3
+            dsup = gen.lindblad_super(np.zeros((d, d), complex), [g], [lop])
+            if route == 0:
+                sys_chain.add_site_hamiltonian(s, h)
+                sys_chain.add_site_dissipation(s, lop, g)
+            elif route == 1:
+                sys_chain.add_site_hamiltonian(s, h)
+                sys_chain.add_site_liouvillian(s, dsup)
+                cells.append("site-liouvillian:after-hamiltonian")
+            else:
+                sys_chain.add_site_liouvillian(s, dsup)
+                sys_chain.add_site_hamiltonian(s, h)
+                cells.append("site-liouvillian:before-hamiltonian")
             diss.append((s, g, lop))
+        else:
+            sys_chain.add_site_hamiltonian(s, h)
     nn_diss = []
     if kind == "exact2":
         a, b = gen.rand_herm(rng, dims[0], 0.6), gen.rand_herm(rng, dims[1],
